@@ -312,6 +312,18 @@ impl SubqueryExecutor {
             }
         }
 
+        let result = self.run_in_subquery(plan)?;
+        self.inner
+            .cache
+            .lock()
+            .insert(key, SubqueryResult::Array(result.clone()));
+        Ok(result)
+    }
+
+    /// Run an IN subquery and return its first column, without touching the
+    /// plan-keyed cache (correlated evaluation runs one substituted plan per
+    /// distinct outer row and keeps its results in the bounded correlated cache).
+    fn run_in_subquery(&self, plan: &LogicalPlan) -> Result<ArrayRef> {
         let planner = self.create_planner();
         let physical = planner.create_physical_plan(plan)?;
 
@@ -319,35 +331,24 @@ impl SubqueryExecutor {
         let batches = run_subquery_blocking(physical)?;
 
         if batches.is_empty() {
-            let result = new_empty_array(
+            return Ok(new_empty_array(
                 plan.schema()
                     .fields()
                     .first()
                     .ok_or_else(|| QueryError::Execution("IN subquery has no columns".into()))?
                     .data_type
                     .clone(),
-            );
-            self.inner
-                .cache
-                .lock()
-                .insert(key, SubqueryResult::Array(result.clone()));
-            return Ok(result);
+            ));
         }
 
         // Concatenate all batches into a single array
-        let result = if batches.len() == 1 {
-            batches[0].column(0).clone()
+        if batches.len() == 1 {
+            Ok(batches[0].column(0).clone())
         } else {
             use arrow::compute::concat;
             let arrays: Vec<&dyn Array> = batches.iter().map(|b| b.column(0).as_ref()).collect();
-            concat(&arrays)?
-        };
-
-        self.inner
-            .cache
-            .lock()
-            .insert(key, SubqueryResult::Array(result.clone()));
-        Ok(result)
+            Ok(concat(&arrays)?)
+        }
     }
 
     /// Execute an EXISTS subquery and return the boolean result
@@ -682,11 +683,22 @@ pub fn evaluate_subquery_expr(
             subquery,
             negated,
         } => {
-            // Execute the IN subquery once to get the set of values
-            let in_values = executor.execute_in_subquery(subquery)?;
-
             // Evaluate the left side expression
             let left_array = super::filter::evaluate_expr(batch, expr)?;
+
+            // A correlated subquery yields a different set per outer row
+            if is_correlated_subquery(subquery) {
+                return execute_correlated_in_subquery(
+                    batch,
+                    &left_array,
+                    subquery,
+                    *negated,
+                    executor,
+                );
+            }
+
+            // Uncorrelated - execute once to get the set of values
+            let in_values = executor.execute_in_subquery(subquery)?;
 
             // Check membership
             evaluate_in_subquery(&left_array, &in_values, *negated)
@@ -815,6 +827,77 @@ fn execute_correlated_exists_subquery(
     Ok(Arc::new(BooleanArray::from(results)))
 }
 
+/// Execute a correlated IN subquery for each row in the batch
+fn execute_correlated_in_subquery(
+    batch: &RecordBatch,
+    left: &ArrayRef,
+    subquery: &LogicalPlan,
+    negated: bool,
+    executor: &SubqueryExecutor,
+) -> Result<ArrayRef> {
+    let num_rows = batch.num_rows();
+    let mut results: Vec<Option<bool>> = Vec::with_capacity(num_rows);
+
+    // Compute plan hash once for cache key
+    let plan_hash = executor.plan_hash(subquery);
+
+    // The cache key is built from the outer row's values; a column type the
+    // key cannot represent would make distinct rows share an entry.
+    let cacheable = batch.columns().iter().all(|c| {
+        use arrow::datatypes::DataType;
+        matches!(
+            c.data_type(),
+            DataType::Int64
+                | DataType::Int32
+                | DataType::Float64
+                | DataType::Utf8
+                | DataType::Boolean
+                | DataType::Date32
+        )
+    });
+
+    for row in 0..num_rows {
+        let correlation_values = if cacheable {
+            Some(executor.extract_correlation_values(batch, row))
+        } else {
+            None
+        };
+
+        let cached = correlation_values
+            .as_ref()
+            .and_then(|values| executor.get_correlated_cache(plan_hash, values));
+
+        let in_values = if let Some(SubqueryResult::Array(values)) = cached {
+            values
+        } else {
+            // Cache miss - execute the subquery for this row
+            let substituted_plan = substitute_correlated_columns(subquery, batch, row)?;
+            let values = executor.run_in_subquery(&substituted_plan)?;
+            if let Some(key) = correlation_values {
+                executor.set_correlated_cache(
+                    plan_hash,
+                    key,
+                    SubqueryResult::Array(values.clone()),
+                );
+            }
+            values
+        };
+
+        let verdict = evaluate_in_subquery(&left.slice(row, 1), &in_values, negated)?;
+        let verdict = verdict
+            .as_any()
+            .downcast_ref::<BooleanArray>()
+            .ok_or_else(|| QueryError::Execution("IN subquery must evaluate to boolean".into()))?;
+        results.push(if verdict.is_null(0) {
+            None
+        } else {
+            Some(verdict.value(0))
+        });
+    }
+
+    Ok(Arc::new(BooleanArray::from(results)))
+}
+
 /// Substitute correlated column references with literal values from a specific row
 fn substitute_correlated_columns(
     plan: &LogicalPlan,
@@ -825,7 +908,10 @@ fn substitute_correlated_columns(
 
     // First, collect which table aliases are local to this subquery
     // We should ONLY substitute columns that reference OUTER tables (not in this set)
-    let local_tables = collect_table_aliases(plan);
+    let local_tables = LocalScope {
+        tables: collect_table_aliases(plan),
+        columns: collect_local_column_names(plan),
+    };
 
     // Create a mapping of column names to their literal values for this row
     let mut column_values: std::collections::HashMap<String, Expr> =
@@ -864,12 +950,44 @@ fn substitute_correlated_columns(
     substitute_columns_in_plan(plan, &column_values, &local_tables)
 }
 
+/// What the subquery's own FROM clause provides; references to it are not
+/// outer references and are never substituted.
+struct LocalScope {
+    /// Table names / aliases
+    tables: std::collections::HashSet<String>,
+    /// Unqualified column names of those tables
+    columns: std::collections::HashSet<String>,
+}
+
+/// Unqualified names of the columns the subquery's own FROM clause provides
+fn collect_local_column_names(plan: &LogicalPlan) -> std::collections::HashSet<String> {
+    fn walk(plan: &LogicalPlan, names: &mut std::collections::HashSet<String>) {
+        match plan {
+            LogicalPlan::Scan(node) => {
+                names.extend(node.schema.fields().iter().map(|f| f.name.clone()));
+            }
+            LogicalPlan::SubqueryAlias(node) => {
+                // The alias shadows its input
+                names.extend(node.schema.fields().iter().map(|f| f.name.clone()));
+            }
+            _ => {
+                for child in plan.children() {
+                    walk(child, names);
+                }
+            }
+        }
+    }
+    let mut names = std::collections::HashSet::new();
+    walk(plan, &mut names);
+    names
+}
+
 /// Recursively substitute column references with literals in a logical plan
 /// Only substitutes columns that reference tables NOT in local_tables (i.e., outer references)
 fn substitute_columns_in_plan(
     plan: &LogicalPlan,
     column_values: &std::collections::HashMap<String, Expr>,
-    local_tables: &std::collections::HashSet<String>,
+    local_tables: &LocalScope,
 ) -> Result<LogicalPlan> {
     use crate::planner::*;
 
@@ -1069,7 +1187,7 @@ fn substitute_columns_in_plan(
 fn substitute_columns_in_expr(
     expr: &Expr,
     column_values: &std::collections::HashMap<String, Expr>,
-    local_tables: &std::collections::HashSet<String>,
+    local_tables: &LocalScope,
 ) -> Expr {
     use crate::planner::*;
     match expr {
@@ -1077,10 +1195,15 @@ fn substitute_columns_in_expr(
             // Only substitute if the column's relation is NOT a local table
             // If relation is Some and it's in local_tables, DON'T substitute
             if let Some(rel) = &col.relation {
-                if local_tables.contains(rel) {
+                if local_tables.tables.contains(rel) {
                     // This is a local table column - don't substitute
                     return expr.clone();
                 }
+            } else if local_tables.columns.contains(&col.name) {
+                // An unqualified name binds to the innermost scope first: the
+                // subquery's own tables have this column, so it keeps reading
+                // the subquery's rows.
+                return expr.clone();
             }
 
             // Try to substitute both qualified and unqualified names
@@ -1255,18 +1378,37 @@ fn results_array_from_scalars(scalars: &[ScalarValue], num_rows: usize) -> Resul
     }
 }
 
-/// Evaluate IN subquery by checking membership
+/// Evaluate IN subquery by checking membership, in SQL three-valued logic:
+///
+/// - over an empty set `x IN` is FALSE and `x NOT IN` is TRUE, also for a NULL `x`;
+/// - otherwise a NULL `x` gives NULL;
+/// - a match gives TRUE (`NOT IN`: FALSE);
+/// - no match gives NULL if the set contains a NULL, else FALSE (`NOT IN`: TRUE).
 fn evaluate_in_subquery(left: &ArrayRef, right: &ArrayRef, negated: bool) -> Result<ArrayRef> {
     use arrow::array::*;
 
     let num_rows = left.len();
+
+    if right.is_empty() {
+        return Ok(Arc::new(BooleanArray::from(vec![negated; num_rows])));
+    }
+
+    // An untyped NULL on either side (`NULL IN (...)`, `SELECT NULL`) can
+    // never match and never rule a match out.
+    if matches!(left.data_type(), arrow::datatypes::DataType::Null)
+        || matches!(right.data_type(), arrow::datatypes::DataType::Null)
+    {
+        return Ok(Arc::new(BooleanArray::from(vec![None::<bool>; num_rows])));
+    }
+
+    let right_has_null = right.null_count() > 0;
     let mut result = Vec::with_capacity(num_rows);
 
     for i in 0..num_rows {
         let mut found = false;
 
         if left.is_null(i) {
-            result.push(Some(false));
+            result.push(None);
             continue;
         }
 
@@ -1311,7 +1453,13 @@ fn evaluate_in_subquery(left: &ArrayRef, right: &ArrayRef, negated: bool) -> Res
             }
         }
 
-        result.push(Some(if negated { !found } else { found }));
+        result.push(if found {
+            Some(!negated)
+        } else if right_has_null {
+            None
+        } else {
+            Some(negated)
+        });
     }
 
     Ok(Arc::new(BooleanArray::from(result)))
@@ -1363,5 +1511,51 @@ mod tests {
         assert!(!bool_arr.value(0));
         assert!(!bool_arr.value(1));
         assert!(!bool_arr.value(2));
+    }
+
+    fn in_subquery(
+        left: Vec<Option<i64>>,
+        right: Vec<Option<i64>>,
+        negated: bool,
+    ) -> Vec<Option<bool>> {
+        let left: ArrayRef = Arc::new(Int64Array::from(left));
+        let right: ArrayRef = Arc::new(Int64Array::from(right));
+        let result = evaluate_in_subquery(&left, &right, negated).unwrap();
+        let result = result.as_any().downcast_ref::<BooleanArray>().unwrap();
+        result.iter().collect()
+    }
+
+    #[test]
+    fn test_in_subquery_three_valued() {
+        let left = vec![Some(1), Some(5), None];
+
+        // A NULL in the set: no match is unknown, never FALSE
+        let set = vec![Some(1), None];
+        assert_eq!(
+            in_subquery(left.clone(), set.clone(), false),
+            vec![Some(true), None, None]
+        );
+        assert_eq!(
+            in_subquery(left.clone(), set, true),
+            vec![Some(false), None, None]
+        );
+
+        // No NULL in the set: only a NULL operand is unknown
+        let set = vec![Some(1), Some(7)];
+        assert_eq!(
+            in_subquery(left.clone(), set.clone(), false),
+            vec![Some(true), Some(false), None]
+        );
+        assert_eq!(
+            in_subquery(left.clone(), set, true),
+            vec![Some(false), Some(true), None]
+        );
+
+        // Empty set: decided even for a NULL operand
+        assert_eq!(
+            in_subquery(left.clone(), vec![], false),
+            vec![Some(false); 3]
+        );
+        assert_eq!(in_subquery(left, vec![], true), vec![Some(true); 3]);
     }
 }
